@@ -220,7 +220,9 @@ def correspond(ctx):
     seeds = [ctx.seed] if not ctx.thorough else [ctx.seed + 101 * k for k in range(4)]
     for i, case in enumerate(cases):
         lead = case.cls_name in leads or case.cls_name in flipped
-        for seed in seeds:
+        # a flipped obligation starts the failing-input search: more data sets for that class
+        case_seeds = seeds + [ctx.seed + 1 + k for k in range(6)] if case.cls_name in flipped else seeds
+        for seed in case_seeds:
             if case.family in ("pool", "pool_ma"):
                 modes = case.cand_modes if (ctx.thorough or lead) else (case.cand_modes[(i + ctx.seed) % len(case.cand_modes)],)
                 for mode in modes:
